@@ -1,7 +1,7 @@
 """C02 -- legal configuration after every microstep (inductive step + base case).
 Subjects: the emitted ANSI-C machine (here); FastMicroStep / LargeMicroStep (engine harness, when built)."""
 from common import *
-import stepcheck
+import stepcheck, enginecheck
 
 
 def run(tier, seed):
@@ -13,13 +13,14 @@ def run(tier, seed):
     tmo = 300 if tier == 'quick' else 3600
     sr.run(prepared, [dict(name='legal', mode=2, variant=1, witness=True)], tmo, 'C02')
     sr.known_finding_witnesses('C02', tmo)
+    enginecheck.run_engines(chk, 'C02', W, tier, seed + 2, 63, n_random=1 if tier == 'quick' else 30, batches_per_doc=4 if tier == 'quick' else 80, mode=2)
     chk.functions += ['uscxml_step (emitted C, this run\'s uscxml-transform -tc output)']
     chk.bounds = {'chart_states_max': max([len(p[1].nodes) for p in prepared] + [0]), 'events_dequeued_per_call_max': stepcheck.KEV,
                   'steps': '1 from every legal pre-state with consistent history (induction step) and from the pristine state (base case)'}
     chk.assumptions += ['INV: configuration legal (Rec. 3.11), root active, remembered history per history state empty or a legal sub-configuration below its parent, flags reachable',
                         'INV is asserted again after the step, so it is inductive: the claim covers event histories of any length for the enumerated documents',
                         'documents: generated valid charts and corpus shapes (valid by construction: targets orthogonal, initial/history defaults inside the parent)']
-    chk.outside += ['FastMicroStep / LargeMicroStep (engine harness)', 'documents rejected by validation', 'charts above the size bound']
+    chk.outside += ['documents rejected by validation', 'charts above the size bound']
     chk.samples += [{'doc': p[1].name, 'kind': p[0], 'shape': p[1].describe()[:200]} for p in prepared[:10]]
     return chk.finish()
 
